@@ -172,7 +172,7 @@ func (g *SynGrammar) hasCycle() bool {
 
 // ---------------------------------------------------------------------------------------
 
-var c06Opts = synGenOpts{MaxNT: 4, MaxT: 4, MaxAlts: 3, MaxBody: 3, PEmpty: 0.15, PLit: 0.3, Reduced: true, Actions: true}
+var c06Opts = synGenOpts{MaxNT: 4, MaxT: 4, MaxAlts: 3, MaxBody: 3, PEmpty: 0.15, PLit: 0.3, Reduced: true, Actions: true, POptRun: 0.3}
 
 func checkC06(c *Ctx) {
 	c.Level = "model_checking"
@@ -241,7 +241,7 @@ func checkC06(c *Ctx) {
 	}
 }
 
-var c03Opts = synGenOpts{MaxNT: 4, MaxT: 4, MaxAlts: 3, MaxBody: 3, PEmpty: 0.2, PLit: 0.3, Actions: true}
+var c03Opts = synGenOpts{MaxNT: 4, MaxT: 4, MaxAlts: 3, MaxBody: 3, PEmpty: 0.2, PLit: 0.3, Actions: true, POptRun: 0.3}
 
 func checkC03(c *Ctx) {
 	c.Level = "model_checking"
